@@ -24,11 +24,22 @@ Qed.
 
 Definition flat_list (l : list amember) : Prop := forall m, In m l -> flat_aty (am_ty m) = true.
 
+(* (C) flag bits of the type object *)
+Lemma sm_flag_bits : forall m,
+  sm_optional (sm_of m) = m_opt (am_info m) /\
+  sm_must_understand (sm_of m) = m_mu (am_info m) /\
+  sm_key (sm_of m) = m_key (am_info m).
+Proof.
+  intros m. unfold sm_optional, sm_must_understand, sm_key, sm_of, flags_of_member. cbn [sm_flags].
+  destruct (am_use_default m), (m_key (am_info m)), (m_mu (am_info m)), (m_opt (am_info m));
+    repeat split; reflexivity.
+Qed.
+
 (* (B) the positional loop *)
 Lemma zip_flat : forall tc l1 l2, flat_list l1 -> flat_list l2 ->
   zip_check tc (map sm_of l1) (map sm_of l2) =
-  Ok (forall2b (same_member tc) (firstn (Nat.min (length l1) (length l2)) l1)
-                                (firstn (Nat.min (length l1) (length l2)) l2)).
+  Ok (forall2b (same_member_pos tc) (firstn (Nat.min (length l1) (length l2)) l1)
+                                    (firstn (Nat.min (length l1) (length l2)) l2)).
 Proof.
   intros tc l1. induction l1 as [|m1 r1 IH]; intros l2 H1 H2; [reflexivity|].
   destruct l2 as [|m2 r2]; [reflexivity|].
@@ -36,9 +47,12 @@ Proof.
   rewrite (tid_flat tc (am_ty m1) (am_ty m2) (H1 m1 (or_introl eq_refl)) (H2 m2 (or_introl eq_refl))).
   cbn [bind].
   rewrite (IH r2 (fun x Hx => H1 x (or_intror Hx)) (fun x Hx => H2 x (or_intror Hx))).
-  unfold same_member.
+  unfold same_member_pos, same_member.
+  destruct (sm_flag_bits m1) as [Ho1 _]. destruct (sm_flag_bits m2) as [Ho2 _].
+  pose proof Ho1 as Ho1'. pose proof Ho2 as Ho2'. unfold sm_of in Ho1', Ho2'.
+  rewrite ?Ho1, ?Ho2, ?Ho1', ?Ho2'.
   destruct (am_id m1 =? am_id m2), (tc_ign_names tc), (am_name m1 =? am_name m2),
-    (aty_accepts tc (am_ty m1) (am_ty m2)); reflexivity.
+    (aty_accepts tc (am_ty m1) (am_ty m2)), (m_opt (am_info m1)), (m_opt (am_info m2)); reflexivity.
 Qed.
 
 Lemma forall2b_firstn : forall {A B} (p : A -> B -> bool) l1 l2, length l1 = length l2 ->
@@ -55,17 +69,6 @@ Proof.
   intros A B p l1. induction l1 as [|a r IH]; intros [|b s] H; cbn [forall2b length] in *;
     try reflexivity; try congruence.
   rewrite IH by congruence. apply Bool.andb_false_r.
-Qed.
-
-(* (C) flag bits of the type object *)
-Lemma sm_flag_bits : forall m,
-  sm_optional (sm_of m) = m_opt (am_info m) /\
-  sm_must_understand (sm_of m) = m_mu (am_info m) /\
-  sm_key (sm_of m) = m_key (am_info m).
-Proof.
-  intros m. unfold sm_optional, sm_must_understand, sm_key, sm_of, flags_of_member. cbn [sm_flags].
-  destruct (am_use_default m), (m_key (am_info m)), (m_mu (am_info m)), (m_opt (am_info m));
-    repeat split; reflexivity.
 Qed.
 
 (* (D) lookups through the type object *)
@@ -227,11 +230,11 @@ Proof.
     rewrite (zip_flat tc ms1 ms2 H1 H2). cbn [bind].
     destruct (Z.eqb_spec (Z.of_nat (length ms1)) (Z.of_nat (length ms2))) as [Hlen|Hlen]; cbn [negb].
     + apply Nat2Z.inj in Hlen. rewrite (forall2b_firstn _ ms1 ms2 Hlen).
-      destruct (forall2b (same_member tc) ms1 ms2); reflexivity.
+      destruct (forall2b (same_member_pos tc) ms1 ms2); reflexivity.
     + rewrite forall2b_length by (intros Hc; apply Hlen; now rewrite Hc). reflexivity.
   - (* APPENDABLE / APPENDABLE *)
     rewrite (zip_flat tc ms1 ms2 H1 H2). cbn [bind].
-    destruct (forall2b (same_member tc) (firstn (Nat.min (length ms1) (length ms2)) ms1)
+    destruct (forall2b (same_member_pos tc) (firstn (Nat.min (length ms1) (length ms2)) ms1)
                        (firstn (Nat.min (length ms1) (length ms2)) ms2)); cbn [negb andb]; [|reflexivity].
     exact Hid.
   - (* MUTABLE / MUTABLE *)
